@@ -427,9 +427,25 @@ func (cr *checkRun) report(evPath string, t0 time.Time, seed int, quiet bool, ve
 		for _, u := range undecided {
 			fmt.Printf("UNDECIDED property=%s %s\n", prop, u)
 		}
-		code = 2
+		// No proof for those functions on this tree. A failed proof is not a violation: if bounded runs of the real
+		// code cover this property and all passed, the verdict rests on them (exit 0, evidence level "other");
+		// without any such run there is no verdict (exit 2).
+		backed := nb > 0
+		for _, br := range cr.bounded {
+			if !br.OK || br.Err != "" {
+				backed = false
+			}
+		}
+		for _, u := range undecided {
+			if strings.Contains(u, "vacuous contract") {
+				backed = false
+			}
+		}
+		if !backed {
+			code = 2
+		}
 		ev.Level = "other"
-		cov["explanation"] = "some functions could not be decided on this tree (outside the verified subset, contract binding broken, or vacuous contract); no verdict"
+		cov["explanation"] = "some functions could not be decided on this tree (outside the verified subset, contract binding broken by a source change, or vacuous contract): no proof for them; the verdict rests on the bounded runs of the real code listed under 'bounded' where there are any, otherwise there is no verdict (exit 2)"
 	}
 	{
 		// one line per finding id
